@@ -233,12 +233,18 @@ def program(rng, pid, shape=None, profile="full", nstmts=(0, 3), asserts=True, n
         else:
             bld.edge(h, x)
             bld.edge(h, b1)
-        branch(b1, l1, l2)
-        first, second = (l1, l2) if R.random() < 0.5 else (l2, l1)
-        bld.edge(first, h)
-        bld.edge(second, h)
-        if R.random() < 0.3:
-            bld.edge(R.choice([l1, l2]), x)
+        # (the harness inserts the edges block by block in index order: the latch with the lower index contributes the FIRST
+        # back edge; which latch the successor order of b1 visits first, and which one has a second successor, is varied)
+        if R.random() < 0.5:
+            branch(b1, l1, l2)
+        else:
+            branch(b1, l2, l1)
+        bld.edge(l1, h)
+        bld.edge(l2, h)
+        if R.random() < 0.6:
+            bail = bld.block(body())
+            bld.edge(R.choice([l1, l2]), bail)
+            bld.edge(bail, x)
         entry, exit_ = e, x
     elif shape == "unreachable":
         e, m, x, dead = bld.block(body()), bld.block(body()), bld.block(body()), bld.block(body())
